@@ -91,30 +91,57 @@ class _Case:
         def xy(lim=600):
             return float(rng.uniform(-lim, lim)), float(rng.uniform(-lim, lim))
         kinds = list(job["src_kinds"])
-        self.sources = {}
+        self.sources, self.src_ref, centres = {}, [], []
         for i, k in enumerate(kinds):
             x, y = xy(400)
             z = zpos()
             az, el = float(rng.uniform(-180, 180)), float(rng.uniform(-30, 30))
-            if k == "ed":
-                d = rng.uniform(20, 60, 2)
-                s = emg3d.TxElectricDipole(
-                    (x-d[0], x+d[0], y-d[1], y+d[1], z-5, z+5),
-                    strength=float(rng.choice([1.0, 0.0, 2.5])))
-            elif k == "ep":
-                s = emg3d.TxElectricPoint((x, y, z, az, el))
-            elif k == "md":
-                s = emg3d.TxMagneticDipole((x, y, z, az, el))
+            strength = float(rng.choice([1.0, 0.0, 2.5]))
+            if k in ("ed", "md"):
+                # a finite dipole in one of the three accepted formats; the
+                # reference modeller gets its two electrodes
+                L = float(rng.choice([1.0, 40.0, 150.0]))
+                u = np.array([np.cos(np.deg2rad(az))*np.cos(np.deg2rad(el)),
+                              np.sin(np.deg2rad(az))*np.cos(np.deg2rad(el)),
+                              np.sin(np.deg2rad(el))])
+                c = np.array([x, y, z])
+                e0, e1 = c - L/2*u, c + L/2*u
+                fmt = job.get("src_fmt", ["flat"]*NS)[i]
+                if fmt == "point":
+                    coo, kw = (x, y, z, az, el), {"length": L}
+                elif fmt == "array":
+                    coo, kw = np.array([e0, e1]), {}
+                else:
+                    coo, kw = (e0[0], e1[0], e0[1], e1[1], e0[2], e1[2]), {}
+                cls = emg3d.TxElectricDipole if k == "ed" \
+                    else emg3d.TxMagneticDipole
+                src = cls(coo, strength=strength, **kw)
+                self.src_ref.append([e0[0], e1[0], e0[1], e1[1], e0[2], e1[2]])
             else:
-                s = emg3d.TxMagneticPoint((x, y, z, az, el))
-            self.sources[f"Tx-{i+1}"] = s
-        self.receivers = {}
+                cls = emg3d.TxElectricPoint if k == "ep" \
+                    else emg3d.TxMagneticPoint
+                src = cls((x, y, z, az, el), strength=strength)
+                self.src_ref.append([x, y, z, az, el])
+            centres.append(np.array([x, y, z]))
+            self.sources[f"Tx-{i+1}"] = src
+        self.receivers, self.rec_abs = {}, [[] for _ in kinds]
+        rel = job.get("rec_rel", [False]*NR)
         for i, k in enumerate(job["rec_kinds"]):
-            x, y = xy(700)
-            z = zpos()
             az, el = float(rng.uniform(-180, 180)), float(rng.uniform(-30, 30))
             cls = emg3d.RxElectricPoint if k == "e" else emg3d.RxMagneticPoint
-            self.receivers[f"Rx-{i+1}"] = cls((x, y, z, az, el))
+            if rel[i]:
+                # offset from the centre of each source
+                d = np.array([rng.uniform(300, 900)*rng.choice([-1, 1]),
+                              rng.uniform(-300, 300), rng.uniform(-15, 15)])
+                self.receivers[f"Rx-{i+1}"] = cls((*d, az, el), relative=True)
+                for si, c in enumerate(centres):
+                    self.rec_abs[si].append((*(c + d), az, el))
+            else:
+                x, y = xy(700)
+                z = zpos()
+                self.receivers[f"Rx-{i+1}"] = cls((x, y, z, az, el))
+                for si in range(len(kinds)):
+                    self.rec_abs[si].append((x, y, z, az, el))
         self.freqs = [0.5, 2.0]
         # observed data: 1-D responses of another layering + finiteness mask
         self.mask = None
@@ -168,7 +195,7 @@ class _Case:
         for i, s in enumerate(self.sources.values()):
             for j, r in enumerate(self.receivers.values()):
                 out[i, j, :] = empymod.bipole(
-                    src=s.coordinates, rec=r.coordinates,
+                    src=self.src_ref[i], rec=self.rec_abs[i][j],
                     depth=self.grid.nodes_z[1:-1], res=1.0/cond_h,
                     freqtime=np.array(self.freqs),
                     aniso=None if cond_v is None else np.sqrt(cond_h/cond_v),
@@ -245,8 +272,12 @@ class _Recorder:
 
         def fwd(cond_h, cond_v, inp):
             rc = np.asarray(inp['rec'], dtype=float)
+            si = [i for i, x in enumerate(srcs) if x is rec.src]
+            ra = case.rec_abs[si[0]] if si else []
             r = [i+1 for i, x in enumerate(recs)
-                 if np.array_equal(np.asarray(x.coordinates, dtype=float), rc)]
+                 if np.array_equal(np.asarray(x.coordinates, dtype=float), rc)
+                 or (i < len(ra) and np.allclose(np.asarray(ra[i]), rc,
+                                                 rtol=1e-14, atol=1e-9))]
             r = r[0] if len(r) == 1 else 0
             rec.flush(r)
             fs = []
@@ -290,14 +321,16 @@ class _Recorder:
         np = self.np
         method, p0, p1 = self.pending
         self.pending = None
-        recs = list(self.sim.survey.receivers.values())
+        srcs = list(self.sim.survey.sources.values())
+        si = [i for i, x in enumerate(srcs) if x is self.src]
         sc = np.asarray(self.src.center[:2], dtype=float)
-        rcc = np.asarray(recs[r-1].center[:2], dtype=float) if r else None
+        rcc = np.asarray(self.case.rec_abs[si[0]][r-1][:2], dtype=float) \
+            if (r and si) else None
 
         def cls(p):
-            if np.array_equal(p, sc):
+            if np.allclose(p, sc, rtol=1e-14, atol=1e-9):
                 return "src"
-            if rcc is not None and np.array_equal(p, rcc):
+            if rcc is not None and np.allclose(p, rcc, rtol=1e-14, atol=1e-9):
                 return "rec"
             return "other"
         self.ev({"e": "Extract", "r": r, "m": method, "p0": cls(p0),
@@ -329,6 +362,9 @@ def _sim_job(job):
 
 
 def _sim_job_(job, np):
+    import warnings
+    import empymod  # noqa  (imports may touch the warning filters)
+    warnings.simplefilter("ignore")
     case = _Case(job)
     rng = case.rng
     ref = case.reference()
@@ -369,6 +405,30 @@ def _sim_job_(job, np):
     if not np.allclose(syn2, syn, rtol=1e-9, atol=0, equal_nan=True):
         obs_f.append(f"responses depend on the extraction: {job['method']} "
                      f"{job['ellipse']} vs {m2} {job['ellipse2']}")
+    # the model object is edited in place (as an inversion does between
+    # iterations), results cleaned, recomputed: responses of the NEW layering
+    rng2 = np.random.default_rng(job["seed"] + 1)
+    new_h = case.cond_h*10**rng2.uniform(-0.3, 0.3, NZ)
+    new_v = None if not case.vti else new_h/rng2.uniform(1.0, 3.0, NZ)
+    newp = case.props(new_h, new_v)
+    if job["seed"] % 2:
+        sim.model.property_x[...] = newp["property_x"]
+        if case.vti:
+            sim.model.property_z[...] = newp["property_z"]
+    else:
+        sim.model.property_x = newp["property_x"]
+        if case.vti:
+            sim.model.property_z = newp["property_z"]
+    sim.clean('computed')
+    sim.compute()
+    syn3 = sim.data.synthetic.data
+    ref3 = case.reference(new_h, new_v)
+    want = np.isfinite(syn)
+    if not np.array_equal(np.isfinite(syn3), want) or not np.allclose(
+            syn3[want], ref3[want], rtol=1e-9, atol=0):
+        obs_f.append("after an in-place update of the model and "
+                     "clean('computed') the responses are not those of the "
+                     "new layering")
     out = []
     t0 = dict(head, grad=False, ev=traces[0]["ev"] + [
         {"e": "End", "syn": codes.tolist()}], obsok=not obs_f, notes=obs_f)
@@ -438,6 +498,11 @@ def _jobs(rng, n):
             "src_kinds": [rng.choice(["ed", "ep", "md", "mp"])
                           for _ in range(NS)],
             "rec_kinds": [rng.choice(["e", "m"]) for _ in range(NR)]})
+        # (separate stream, so that the cases above stay as they were)
+        r2 = random.Random(jobs[-1]["seed"])
+        jobs[-1]["src_fmt"] = [r2.choice(["flat", "point", "array"])
+                               for _ in range(NS)]
+        jobs[-1]["rec_rel"] = [r2.random() < 0.25 for _ in range(NR)]
     return jobs
 
 
@@ -706,7 +771,8 @@ def run(tier, replay=None):
             if e["e"] == "Ret" and not e["zero"]:
                 e["dirs"] = [1, 2]
         muts.append(t)
-        t = copy.deepcopy(good[0])         # extraction at the wrong point
+        t = copy.deepcopy([g for g in good if any(
+            e["e"] == "Extract" for e in g["ev"])][0])   # wrong point
         for e in t["ev"]:
             if e["e"] == "Extract":
                 e["p0"] = "rec" if e["p0"] == "src" else "src"
